@@ -42,6 +42,8 @@ func init() {
 				NeedCounters: []string{"cancel-on-loss"}},
 			{Name: fmt.Sprintf("req-retry-context-opened-later-hist-D%d", d-1), Mode: "hist", Reset: kit.ResetGlobals, Body: func() { histOpt(d-1, 10*time.Second, true) },
 				NeedCounters: []string{"context-opened-while-a-request-is-outstanding", "retx-carrier-lost", "retx-timer"}},
+			{Name: fmt.Sprintf("req-retry-with-a-receive-deadline-hist-D%d", d), Mode: "hist", Reset: kit.ResetGlobals, Body: func() { histRecvDeadline(d, 10*time.Second) },
+				NeedCounters: []string{"request-given-up-at-the-receive-deadline", "retx-carrier-lost", "no-retx-after-reply"}},
 			{Name: fmt.Sprintf("req-retry-time-changed-hist-D%d", d), Mode: "hist", Reset: kit.ResetGlobals, Body: func() { histRetune(d, 10*time.Second) },
 				NeedCounters: []string{"retry-time-changed-with-a-request-outstanding", "retx-timer", "retx-carrier-lost", "cancel-on-loss"}},
 			{Name: fmt.Sprintf("req-slow-peer-hist-D%d", d), Mode: "hist", Reset: kit.ResetGlobals, Body: func() { SlowPeerHist(d) }},
@@ -79,6 +81,7 @@ type mctx struct {
 	cur    *request
 	old    []*request
 	recv   *kit.Call
+	recvAt time.Duration
 	answer string
 	hasAns bool
 	closed bool
@@ -113,6 +116,7 @@ type world struct {
 
 var sendDeadline time.Duration
 var failNoPeers bool
+var recvDL time.Duration // receive deadline on socket and context (0: none)
 
 func setup(R time.Duration, npipes int) *world {
 	w := &world{R: R}
@@ -148,6 +152,14 @@ func setup(R time.Duration, npipes int) *world {
 	if sendDeadline > 0 {
 		if err := c.SetOption(mangos.OptionSendDeadline, sendDeadline); err != nil {
 			kit.Failf("setup", "ctx.SetOption(SendDeadline): %v", err)
+		}
+	}
+	if recvDL > 0 {
+		if err := s.SetOption(mangos.OptionRecvDeadline, recvDL); err != nil {
+			kit.Failf("setup", "SetOption(RecvDeadline): %v", err)
+		}
+		if err := c.SetOption(mangos.OptionRecvDeadline, recvDL); err != nil {
+			kit.Failf("setup", "ctx.SetOption(RecvDeadline): %v", err)
 		}
 	}
 	if failNoPeers {
@@ -254,6 +266,9 @@ func (w *world) account() {
 		}
 		if string(sm.Data[4:]) != r.payload {
 			kit.Failf("tx-bytes-differ", "%s: retransmission of %08x carries %q, the original request was %q", m.name, id, sm.Data[4:], r.payload)
+		}
+		if recvDL > 0 && m.recv != nil && m.cur == r && !m.hasAns && sm.At > m.recvAt+recvDL {
+			kit.Failf("tx-after-timed-out", "%s: request %08x was transmitted at %v on pipe %d although its Recv (started %v, deadline %v) had given it up by then", m.name, id, sm.At, sm.pipe, m.recvAt, recvDL)
 		}
 		if r.done {
 			kit.Failf("tx-after-"+r.why, "%s: request %08x was transmitted again at %v on pipe %d after it was %s", m.name, id, sm.At, sm.pipe, r.why)
@@ -494,6 +509,7 @@ func (w *world) peekWire() []wireMsg {
 }
 
 func (w *world) doRecv(m *mctx) {
+	m.recvAt = kit.Now()
 	m.recv = kit.Start("Recv:"+m.name, func() (interface{}, error) {
 		b, err := m.recvCall()
 		return string(b), err
@@ -534,6 +550,20 @@ func (w *world) settle() {
 	now := kit.Now()
 	alive := w.alive()
 	for _, m := range w.ctxs {
+		if c := m.recv; c != nil && recvDL > 0 && m.cur != nil && !m.hasAns && !(m.closed && m.c != nil) && now >= m.recvAt+recvDL {
+			// the receive deadline has passed without an answer: Recv fails with the timeout error and
+			// the request is given up - it is never transmitted again, whatever happens to connections
+			if !c.Done() || c.Err != mangos.ErrRecvTimeout {
+				kit.Failf("recv-deadline", "%s: Recv started at %v with a %v deadline, no answer: done=%v %s at %v", m.name, m.recvAt, recvDL, c.Done(), kit.ErrName(c.Err), now)
+			}
+			// (what fell due before the deadline was still owed: only later transmissions are wrong)
+			m.cur.done = true
+			m.cur.why = "timed-out"
+			m.old = append(m.old, m.cur)
+			m.cur = nil
+			kit.Count("request-given-up-at-the-receive-deadline")
+			m.recv = nil
+		}
 		if r := m.cur; r != nil {
 			if alive > 0 {
 				if r.drops > 0 {
@@ -638,6 +668,30 @@ func histOpt(depth int, R time.Duration, late bool) {
 		kit.Quiesce()
 		w.settle() // whatever is still unanswered has been re-sent meanwhile, nothing else was
 	}
+	kit.Must("Socket.Close", func() { _ = w.sock.Close() })
+	kit.Quiesce()
+	for _, m := range w.ctxs {
+		w.retire(m, "closed")
+	}
+	kit.Sleep(3 * time.Minute)
+	kit.Quiesce()
+	w.account()
+}
+
+// histRecvDeadline: the retry histories with a receive deadline of R/4 on socket and context.  A
+// Recv that runs into the deadline fails with the timeout error and gives the request up: from
+// then on it is never transmitted again - not when the retry interval elapses, not when the
+// connection that carried it is lost, not when a new peer arrives.
+func histRecvDeadline(depth int, R time.Duration) {
+	sendDeadline = 0
+	failNoPeers = false
+	recvDL = R / 4
+	defer func() { recvDL = 0 }()
+	w := setup(R, 2)
+	kit.Hist(depth, w.events, w.settle)
+	kit.Sleep(3*R + time.Millisecond)
+	kit.Quiesce()
+	w.settle()
 	kit.Must("Socket.Close", func() { _ = w.sock.Close() })
 	kit.Quiesce()
 	for _, m := range w.ctxs {
